@@ -217,6 +217,9 @@ func (e *refEncoder) enc(n *Node, v reflect.Value) Enc {
 		}
 		return Enc{B: append(p, b...), F: []FieldRef{{Off: 0, W: n.S.Prefix, Kind: "len"}}}
 	case KByteArr:
+		if e.validate && !e.boundsOK(n.S, n.N) {
+			return reject("byte array length %d outside [%d,%d]", n.N, n.S.Min, n.S.Max)
+		}
 		out := Enc{}
 		if n.Code != nil {
 			out.B = append(out.B, codeBytes(n.Code)...)
